@@ -208,16 +208,18 @@ def handle (line : String) : String :=
         | none => specFail model ("roundtrip:query:" ++ iq)
       | _ => specFail model ("roundtrip:query:" ++ impl)
     | _, _ => badCase "query term / table"
-  | ["handler", _which, ps, ts] =>
-    match parseT ps >>= tToPQ, parseT ts >>= envOfTable with
-    | some p, some env =>
-      let model := match handler env p with
+  | ["handler", which, ps, os, ts] =>
+    match parseT ps >>= tToPQ, bool? os, parseT ts >>= envOfTable with
+    | some p, some optsSet, some env =>
+      let rpc : Rpc := if which == "list" then .list else if which == "stream" then .stream else .search
+      let model := match handler env rpc p optsSet with
         | .ok .invalidArgument => "status:InvalidArgument"
-        | .ok (.callsStreamer q) => "ok " ++ showQ q
+        | .ok (.callsStreamer q o) => "ok " ++ showQ q ++ " opts=" ++
+            (match o with | .fromWire => "wire" | .zero => "zero" | .nilOpts => "nil")
         | .panic _ => "panic"
         | _ => "?"
       if checkHandlerP ((impl.splitOn " ").headD "") then answer model else specFail model ("handler-not-total:" ++ (impl.splitOn " ").headD "")
-    | _, _ => badCase "proto term / table"
+    | _, _, _ => badCase "proto term / table"
   | _ => badCase "op"
 
 def main : IO Unit := runLines handle
